@@ -1277,7 +1277,11 @@ func (w *Writer) getBlockNames(global ir.GlobalVariable) (string, string) {
 	}
 	blockID := w.blockIDCounter
 	w.blockIDCounter++
+	// the block name shares the global namespace with struct types and functions
 	blockName := fmt.Sprintf("%s_block_%d%s", typeName, blockID, stageName)
+	if w.namer != nil {
+		blockName = w.namer.call(blockName)
+	}
 	return blockName, instanceName
 }
 
@@ -1309,7 +1313,11 @@ func (w *Writer) computeBlockNames(global ir.GlobalVariable) (string, string) {
 
 	blockID := w.blockIDCounter
 	w.blockIDCounter++
+	// the block name shares the global namespace with struct types and functions
 	blockName := fmt.Sprintf("%s_block_%d%s", typeName, blockID, stageName)
+	if w.namer != nil {
+		blockName = w.namer.call(blockName)
+	}
 	instanceName := fmt.Sprintf("_group_%d_binding_%d_%s", group, binding, stageSuffix)
 	return blockName, instanceName
 }
